@@ -78,6 +78,9 @@ func LoadManifest(dbPath string) (*Manifest, error) {
 	}
 
 	current := &entries[len(entries)-1]
+	if current.Config == nil {
+		return nil, fmt.Errorf("%w: last entry has no configuration", ErrInvalidManifest)
+	}
 	if err := current.Config.Validate(); err != nil {
 		return nil, err
 	}
